@@ -42,6 +42,7 @@ Unary(op, i) ==
        [] op = "replace"           -> Push(Entry(op, <<i>>, pool[i].ar, "form"))
        [] op = "neg"               -> Push(Entry(op, <<i>>, pool[i].ar, "form"))
        [] op = "scale"             -> Push(Entry(op, <<i>>, pool[i].ar, "form"))
+       [] op = "unit_scale"        -> Push(Entry(op, <<i>>, pool[i].ar, "form"))   \* 1.0 * a
        [] op = "expand_derivatives"-> Push(Entry(op, <<i>>, pool[i].ar, "form"))
        [] op = "lower"             -> Push(Entry(op, <<i>>, pool[i].ar, "form"))
        [] op = "renumber"          -> Push(Entry(op, <<i>>, pool[i].ar, "form"))
